@@ -1,7 +1,7 @@
-(* C05 - every failure is an error value: no input crashes or hangs the interpreter. Property theorems only (proofs in proofs/ParserTermination.v). Front end: for EVERY token list the parser terminates within the fuel the model gives it and never panics; for EVERY text the lexer consumes its whole input with strictly increasing offsets. The compiler is structurally recursive on the tree (no fuel: termination by Coq's guard). Machine-level no-panic statements are in C02 (verify_sound), C14 (builtins_total) and C06 (operators). *)
+(* C05 - every failure is an error value: no input crashes or hangs the interpreter. Property theorems only (proofs in proofs/ParserTermination.v). Front end: for EVERY token list the parser terminates within the fuel the model gives it and never panics; for EVERY text the lexer consumes its whole input with strictly increasing offsets. The compiler is structurally recursive on the tree (no fuel: termination by Coq's guard). MACHINE (proofs/VMTotal.v, VMTotalB.v): under the conjunction of the verifier invariant (C02), the collector invariant (C03) and an integer-range invariant, a step never yields ANY fault; hence eval_total: for every text, evaluation is a value, one of the documented error kinds, or the budget/display-depth exit - never a panic - given a certificate for the compiled code (established per program on the real bytecode; compile_certifies in progress). *)
 From NL.Model Require Import Parser Pipeline.
-From NL.Spec Require Import Printer.
-From NL.Proofs Require ParserTermination CompilerTotal.
+From NL.Spec Require Import Printer Verify VMInv.
+From NL.Proofs Require ParserTermination CompilerTotal VMTotal VMTotalB.
 
 
 (* parsing terminates: the fuel the model hands the Pratt parser (linear in the number of tokens) is never exhausted, for every token list whatsoever and every float oracle. (The pinned tree violated this: `functie (` looped forever.) *)
@@ -72,6 +72,30 @@ Proof. exact CompilerTotal.eval_front_no_panic. Qed.
 Theorem lexer_floats_shaped : forall (u : unicode) (src s : text), In (TFloatLit s) (tokens u src) -> CompilerTotal.float_shape s.
 Proof. exact CompilerTotal.lexer_floats_shaped. Qed.
 
+(* THE property at model level: for every text and budget, eval is a front-end error VALUE, or a run whose result is a value, an error kind or out-of-fuel - never a fault (hypotheses: float oracle accepts digits.digits; the compiled code has a verifier certificate; fewer than 2^60 allocations) *)
+Theorem eval_total : forall (u : unicode) (orc : oracle) (src : text) (budget : nat), (forall s : text, CompilerTotal.float_shape s -> parse_float orc s <> None) -> (forall bc : bytecode, front u orc src = Ok bc -> exists c : cert, check {| p_code := b_code bc; p_consts := fst (load_consts (b_constants bc) empty_heap) |} c = true) -> (forall bc : bytecode, front u orc src = Ok bc -> Z.of_nat (length (b_constants bc)) + Z.of_nat budget + 1 < 2 ^ 60) -> match eval u orc src budget with | FrontError r => exists k : errkind, r = Err k | Ran _ o => match o_result o with | Fault _ => False | _ => True end end.
+Proof. exact VMTotalB.eval_total. Qed.
+
+(* one step from any state satisfying the three invariants: continue (invariants kept), halt, error value, or print of an array nested deeper than the display bound (D26) - never a fault *)
+Theorem step_total : forall (orc : oracle) (p : program) (c : cert) (room : Z) (s : vm), check p c = true -> VMTotal.AllInv p c room s -> 1 <= room -> match step orc p s with | Ok (Continue s') => VMTotal.AllInv p c (room - 1) s' | Fault _ => False | OutOfFuel => VMTotal.print_too_deep orc p s | _ => True end.
+Proof. exact VMTotal.step_total. Qed.
+
+(* whole runs of any bytecode that has a certificate *)
+Theorem run_total : forall (orc : oracle) (bc : bytecode) (budget : nat), (exists c : cert, check {| p_code := b_code bc; p_consts := fst (load_consts (b_constants bc) empty_heap) |} c = true) -> VMTotal.kints_ok (b_constants bc) -> Z.of_nat (length (b_constants bc)) + Z.of_nat budget + 1 < 2 ^ 60 -> match o_result (run_program orc bc budget) with | Fault _ => False | _ => True end.
+Proof. exact VMTotal.run_total. Qed.
+
+(* no unwrap()/overflow panic site of vm.rs / object.rs / builtins.rs is reachable *)
+Theorem step_no_unwrap : forall (orc : oracle) (prog : program) (s : vm), VMInv prog s -> VMTotal.IntInv prog s -> forall f : fault, step orc prog s = Fault f -> f <> FUnwrap /\ f <> FOverflow.
+Proof. exact VMTotal.step_no_unwrap. Qed.
+
+(* the only non-budget way to run out of fuel is displaying a too deeply nested (or cyclic) array *)
+Theorem step_fuel_only_print : forall (orc : oracle) (prog : program) (s : vm), VMInv prog s -> VMTotal.IntInv prog s -> step orc prog s = OutOfFuel -> VMTotal.print_too_deep orc prog s.
+Proof. exact VMTotal.step_fuel_only_print. Qed.
+
+(* every integer constant the compiler emits is in the machine's range *)
+Theorem front_kints : forall (u : unicode) (orc : oracle) (src : text) (bc : bytecode), front u orc src = Ok bc -> VMTotal.kints_ok (b_constants bc).
+Proof. exact VMTotalB.front_kints. Qed.
+
 Example functie_paren_terminates : exists k, parse_tokens (fun _ => None) [TFix KFunc; TFix KOpenParen] = Err k.
 Proof. eexists; vm_compute; reflexivity. Qed.
 Print Assumptions parse_terminates.
@@ -91,3 +115,9 @@ Print Assumptions compile_result_kinds.
 Print Assumptions compile_ast_session.
 Print Assumptions eval_front_no_panic.
 Print Assumptions lexer_floats_shaped.
+Print Assumptions eval_total.
+Print Assumptions step_total.
+Print Assumptions run_total.
+Print Assumptions step_no_unwrap.
+Print Assumptions step_fuel_only_print.
+Print Assumptions front_kints.
